@@ -3,6 +3,8 @@
 SPECIFICATION MCSpec
 CONSTANTS
   V4 = TRUE
+  Loops = {1}
+  ServerWideBuffer = FALSE
   StopOnParseError = FALSE
   ReuseReadBuffer = TRUE
   MaxReads = 3
